@@ -262,7 +262,7 @@ def bind_max_param_len(b: bytes):
 def coq_eval(name, preamble, exprs, shard=200, timeout=900, procs=16):
     """Like vlib.coq_eval, but coqc writes to a file: vlib's version keeps stdout in a pipe that it only
     reads after exit, which blocks forever once a shard prints more than the pipe buffer (byte lists do)."""
-    d = os.path.join(vlib.TMP, name)
+    d = os.path.join(vlib.TMP, "%s.%d.%d" % (name, os.getpid(), next(vlib._COQ_EVAL_N)))
     shutil.rmtree(d, ignore_errors=True)
     os.makedirs(d)
     shards = [exprs[i:i + shard] for i in range(0, len(exprs), shard)] or [[]]
